@@ -554,7 +554,7 @@ func ruleR073(c *Ctx, r *Repo) {
 func ruleR075(c *Ctx, r *Repo, rule string) {
 	cp := r.Pkg("config")
 	info := cp.TypesInfo
-	if fd := FuncDecl(cp, "RootConfig.subPackages"); fd == nil {
+	if fd := subPackagesDecl(cp); fd == nil {
 		c.Fail(rule, "subPackages|missing", "config/config.go", "RootConfig.subPackages not found")
 	} else {
 		c.Func(funcKey(cp, fd))
@@ -627,10 +627,14 @@ func ruleR075(c *Ctx, r *Repo, rule string) {
 	var fd *ast.FuncDecl
 	var rs *ast.RangeStmt
 	for _, f := range withCallees(cp, init) {
-		if f.Recv == nil || f == FuncDecl(cp, "RootConfig.subPackages") {
+		if f.Recv == nil || f == subPackagesDecl(cp) {
 			continue
 		}
-		if x := rangeOverC(cp, f, ".subPackages<(config.RootConfig).subPackages>("); x != nil {
+		x := rangeOverC(cp, f, ".subPackages<(config.RootConfig).subPackages>(")
+		if x == nil {
+			x = rangeOverC(cp, f, "config.subPackages(") // the method may have become a plain function
+		}
+		if x != nil {
 			fd, rs = f, x
 			break
 		}
@@ -647,7 +651,7 @@ func ruleR075(c *Ctx, r *Repo, rule string) {
 	// the recursive package = whatever subPackages was asked about
 	recpkg := ""
 	ast.Inspect(fd.Body, func(n ast.Node) bool {
-		if call, ok := n.(*ast.CallExpr); ok && call.Pos() < rs.Body.Pos() && len(call.Args) == 1 && calleeFunc(info, call) != nil && pkgFuncs(cp)[calleeFunc(info, call)] == FuncDecl(cp, "RootConfig.subPackages") {
+		if call, ok := n.(*ast.CallExpr); ok && call.Pos() < rs.Body.Pos() && len(call.Args) == 1 && calleeFunc(info, call) != nil && pkgFuncs(cp)[calleeFunc(info, call)] == subPackagesDecl(cp) {
 			recpkg = d.canon(start, call.Args[0])
 		}
 		return true
@@ -779,7 +783,7 @@ func replaceToken(s, tok, repl string) string {
 func checkRecursiveOrder(c *Ctx, r *Repo, cp *packages.Package, fd *ast.FuncDecl, rule, key string) {
 	info := cp.TypesInfo
 	funcs := pkgFuncs(cp)
-	sub := FuncDecl(cp, "RootConfig.subPackages")
+	sub := subPackagesDecl(cp)
 	reachesSub := func(body ast.Node) bool {
 		found := false
 		ast.Inspect(body, func(n ast.Node) bool {
@@ -912,4 +916,13 @@ func checkRecursiveOrder(c *Ctx, r *Repo, cp *packages.Package, fd *ast.FuncDecl
 		}
 	}
 	c.Check(okLen && okTie, rule, key, r.Pos(sortPos), "recursive packages sorted longest path first with a total tie-break before expansion", "the comparator of the recursive-package sort is not 'longer path first, then a total tie-break': expansion order (and with it which ancestor a sub-package inherits from) is not the nearest-ancestor-first order")
+}
+
+// subPackagesDecl: the function that lists the sub-packages of a recursive package (a method of
+// RootConfig today; it uses nothing of its receiver, so it may as well be a plain function).
+func subPackagesDecl(cp *packages.Package) *ast.FuncDecl {
+	if fd := FuncDecl(cp, "RootConfig.subPackages"); fd != nil {
+		return fd
+	}
+	return FuncDecl(cp, "subPackages")
 }
